@@ -17,7 +17,7 @@ PROPS = {
                 "non-trivial = N >= 1 and the buffer holds >= 2 distinct sample values; distinct = hash of (format, channels, type, N, style, split, float mode, route)",
         "assumptions": BASE_ASSUME,
         "stages": [
-            {"bin": "c01", "quick": {"cases": 2500, "workers": 16, "budget": 150}, "thorough": {"cases": 60000, "workers": 16, "budget": 1200}},
+            {"bin": "c01", "quick": {"cases": 6000, "workers": 16, "budget": 150}, "thorough": {"cases": 60000, "workers": 16, "budget": 1200}},
         ],
     },
 }
@@ -30,7 +30,7 @@ PROPS["C04"] = {
     "assumptions": BASE_ASSUME + ["block length B of WAV/W64 ADPCM is read from the fmt chunk of the produced file by an independent walker; other B values are the table of DESIGN Appendix A.1",
                                   "sample-rate equality is asserted only where the container's rate field can hold the value exactly (DESIGN Appendix A.2)"],
     "stages": [
-        {"bin": "c04", "quick": {"cases": 2500, "workers": 16, "budget": 150}, "thorough": {"cases": 60000, "workers": 16, "budget": 1200}},
+        {"bin": "c04", "quick": {"cases": 6000, "workers": 16, "budget": 150}, "thorough": {"cases": 60000, "workers": 16, "budget": 1200}},
     ],
 }
 
@@ -41,7 +41,7 @@ PROPS["C05"] = {
     "assumptions": BASE_ASSUME + ["the reference stream is one sequential read of the whole file through the same sample type on a fresh handle (count/bounds/position contract is under test, not codec fidelity)",
                                   "the content of buffer[r..requested) after a partial read is not constrained (the statement demands zero fill only at end of data)"],
     "stages": [
-        {"bin": "c05", "quick": {"cases": 5000, "workers": 16, "budget": 150}, "thorough": {"cases": 40000, "workers": 16, "budget": 1200}},
+        {"bin": "c05", "quick": {"cases": 8000, "workers": 16, "budget": 150}, "thorough": {"cases": 40000, "workers": 16, "budget": 1200}},
     ],
 }
 PROPS["C06"] = {
@@ -50,7 +50,7 @@ PROPS["C06"] = {
             "oracle: data after a successful seek to k equals frames k.. of the sequential reference, seek returns the target or -1 with an error, SEEK_CUR(0) equals the model position; non-trivial = a successful seek strictly inside the file followed by a read; distinct = hash of (format, channels, N, op list)",
     "assumptions": BASE_ASSUME + ["after an in-range seek that the codec refuses (-1 with an error, allowed by the statement) the history stops: the stream position after a refused seek is not specified"],
     "stages": [
-        {"bin": "c06", "quick": {"cases": 4000, "workers": 16, "budget": 150}, "thorough": {"cases": 40000, "workers": 16, "budget": 1200}},
+        {"bin": "c06", "quick": {"cases": 6000, "workers": 16, "budget": 150}, "thorough": {"cases": 40000, "workers": 16, "budget": 1200}},
     ],
 }
 
@@ -60,7 +60,7 @@ PROPS["C07"] = {
             "oracle: bytes(P,t1) == bytes(Q,t1), bytes(P,t1) == bytes(P,t2) after masking the PEAK timestamp (and the MAT5 header date text); non-trivial = N >= 1, P != Q and a call boundary not aligned to the codec block; distinct = hash of (format, channels, N, type, P, Q)",
     "assumptions": BASE_ASSUME + ["the process clock is pinned by linking the harness with --wrap=time,gettimeofday; 'another process' is approximated by a second run in the same process with a different clock value (process isolation proper is C19)"],
     "stages": [
-        {"bin": "c07", "quick": {"cases": 6000, "workers": 16, "budget": 150}, "thorough": {"cases": 40000, "workers": 16, "budget": 1200}},
+        {"bin": "c07", "quick": {"cases": 10000, "workers": 16, "budget": 150}, "thorough": {"cases": 40000, "workers": 16, "budget": 1200}},
     ],
 }
 PROPS["C11"] = {
@@ -161,7 +161,7 @@ PROPS["C18"] = {
             "(calc) every catalogue entry x read position {start, middle, end, after a read} x NORM_DOUBLE/NORM_FLOAT settings: SFC_CALC_SIGNAL_MAX / NORM / MAX_ALL_CHANNELS / NORM_MAX_ALL_CHANNELS into a garbage-filled array equal the maximum of an independent sequential double read, position, settings and the next frame delivered are unchanged; in a quarter of the peak cases the file is closed after some of the calls, re-opened read/write and the rest appended (second session); non-trivial = >= 2 channels with a tie or call-boundary maximum (peak) or a non-zero read position (calc); distinct = hash of the case",
     "assumptions": BASE_ASSUME + ["PEAK values are compared as (float) max because the chunk stores 32-bit floats", "for CALC on lossy codecs 'the stored samples' are what an independent sequential decode delivers"],
     "stages": [
-        {"bin": "c18", "quick": {"cases": 4000, "workers": 16, "budget": 200}, "thorough": {"cases": 60000, "workers": 16, "budget": 1500}},
+        {"bin": "c18", "quick": {"cases": 8000, "workers": 16, "budget": 200}, "thorough": {"cases": 60000, "workers": 16, "budget": 1500}},
     ],
 }
 
@@ -172,7 +172,7 @@ PROPS["C13"] = {
     "assumptions": BASE_ASSUME + ["chunk sources and destinations are exact-size heap blocks; the invariant hook runs after every sf_set_chunk",
                                   "three listed findings partition off their own classes by signature (ids shorter than 4 chars, reserved ids, totals above ~48 KiB); everything else is asserted"],
     "stages": [
-        {"bin": "c13", "quick": {"cases": 5000, "workers": 16, "budget": 200}, "thorough": {"cases": 40000, "workers": 16, "budget": 1500}},
+        {"bin": "c13", "quick": {"cases": 8000, "workers": 16, "budget": 200}, "thorough": {"cases": 40000, "workers": 16, "budget": 1500}},
     ],
 }
 
@@ -222,7 +222,7 @@ PROPS["C14"] = {
                                   "pipe inputs are limited to 60000 bytes so that the whole file fits the pipe buffer and no writer thread is needed",
                                   "the open-descriptor census reads /proc/self/fd"],
     "stages": [
-        {"bin": "c14", "quick": {"cases": 2500, "workers": 16, "budget": 200}, "thorough": {"cases": 30000, "workers": 16, "budget": 1500}},
+        {"bin": "c14", "quick": {"cases": 5000, "workers": 16, "budget": 200}, "thorough": {"cases": 30000, "workers": 16, "budget": 1500}},
     ],
 }
 
